@@ -134,6 +134,8 @@ fam('c09_iter c09_keys c09_values c09_iter_mut c09_values_mut c09_set_iter', 'g_
 fam('c09_defaults', 'g_iter', [0, 2], [])
 # zero-sized key and value; second parameter: iterator kind
 fam('c09_zst c10_zst', 'g_iter', [(n, o) for n in (1, 2) for o in range(6)], [(n, o) for n in (0, 3) for o in range(6)], unwind=lambda c: c[0] + 3)
+# zero-sized elements with a destructor; second parameter: which destroying path
+fam('c02_zst_drops', 'g_iter', [(n, w) for n in (1, 2) for w in range(10)], [(3, w) for w in range(10)], unwind=lambda c: c[0] + 3)
 fam('c09_provided c09_set_provided c10_set_provided', 'g_iter', [1, 2, 3], [4])
 fam('c10_drain_methods c10_set_drain_methods', 'g_iter', [1, 2, 3], [4, 5])
 # second parameter: 0 into_iter, 1 into_keys, 2 into_values, 3 drain
@@ -249,7 +251,7 @@ PROPS = {
                      'c10_into_iter c10_into_keys c10_into_values c10_set_into_iter c10_drain c10_set_drain c10_provided c10_set_provided c10_drain_methods c10_set_drain_methods '
                      'c07_insert c07_replace c07_remove c07_take c07_retain c07_clear c07_drain c07_extend c11_or c11_variants c11_key_and_modify c16_from_iter c16_from_array c16_set_from_array c15_clone c15_set_clone c15_clone_from '
                      'c03_insert c03_insert_kv c03_or_insert c03_vacant_insert c03_set_insert c03_checked_full c03_from_iter c03_set_extend '
-                     'c04_internal c04_set_internal'),   # rejected arguments destroyed exactly once
+                     'c04_internal c04_set_internal c02_zst_drops'),   # rejected arguments destroyed exactly once
     'C12': dict(fams='c01_insert c01_insert_kv c01_checked_insert c01_lookup c01_remove_entry c03_replace_full c07_insert c07_replace c07_lookup c07_take '
                      'c09_iter c09_set_iter c10_into_iter c10_set_into_iter c11_or c11_variants c11_key_and_modify c16_from_iter c16_from_array'),
     'C06': dict(fams='c06_big c06_refs c06_refs_set c01_insert c01_lookup c01_remove c01_retain c01_clear c01_drain_all c09_iter c09_iter_mut c10_into_iter c10_drain '
@@ -274,7 +276,7 @@ PROPS = {
     'C07': dict(fams='c07_zst c07u_ops c07w_ops c07_insert c07_replace c07_lookup c07_remove c07_take c07_retain c07_clear c07_drain c07_extend c07_extend_ref'),
     'C09': dict(fams='c09_iter c09_keys c09_values c09_iter_mut c09_values_mut c09_set_iter c09_defaults c09_provided c09_set_provided c09_zst'),
     'C10': dict(fams='c10_into_iter c10_into_keys c10_into_values c10_set_into_iter c10_drain c10_set_drain c10_provided c10_set_provided c10_drain_methods c10_set_drain_methods '
-                     'c10_zst c04_internal c04_set_internal'),   # "each once" also when the closure driving for_each/fold panics
+                     'c10_zst c02_zst_drops c04_internal c04_set_internal'),   # "each once" also when the closure driving for_each/fold panics
     'C01': dict(fams='c01_insert c01_insert_kv c01_checked_insert c01_lookup c01_index c01_remove c01_remove_entry c01_retain c01_clear c01_drain_all c10_drain c01_hist c01u_ops c01w_ops c01_lookup_unsized c01_zst '
                      'c03_insert c03_insert_kv c03_checked_full c03_replace_full'),   # a rejected insertion leaves exactly the previous associations
 }
